@@ -76,6 +76,13 @@ RecordError(e) ==
     /\ errs' = IF CurRound = "check" /\ ~IsLoad THEN Append(errs, e) ELSE errs
     /\ UNCHANGED <<np, ri, fi, row, nsteps, atEOF, eofReads, printed, status>>
 
+\* IfUnless evaluates its condition ahead on a by-value COPY of the parser; a diagnostic raised
+\* there is appended to the copy's list and is lost with it (named, deliberate deviation from
+\* "every diagnostic of the check round is printed")
+LookaheadError(e) ==
+    /\ status = "running" /\ fi \in 1..Len(Files)
+    /\ UNCHANGED vars
+
 \* after the (check, target) pass: hints first, then the recorded diagnostics; exit 0
 Finish(hints) ==
     /\ status = "running" /\ ri = Len(Rounds) /\ fi = Len(Files) /\ atEOF
@@ -87,6 +94,7 @@ Next ==
     \/ StartRound \/ StartFile
     \/ \E r \in row..(row+1), e \in BOOLEAN, k \in eofReads..(eofReads+1) : nsteps < MaxSteps /\ Step(r, e \/ nsteps = MaxSteps - 1, k)
     \/ fi >= 1 /\ Len(errs) < MaxErrs /\ RecordError([file |-> CurFile, row |-> row])
+    \/ fi >= 1 /\ LookaheadError([file |-> CurFile, row |-> row])
     \/ Finish(<<>>)
 
 Spec == Init /\ [][Next]_vars /\ WF_vars(Next)
